@@ -10,9 +10,9 @@ cmake --build _build -j6 2>&1 | tail -1
 ctest --test-dir _build -j4 --timeout 900 2>&1 | tail -3
 echo "-- demo WITH change"
 bash $out/build_and_run.sh $wt > $out/demo_with.verify.txt 2>&1; echo "exit=$?"; tail -3 $out/demo_with.verify.txt
-git stash -q
+git apply -R $out/patch.diff   # (not git stash: the stash stack is shared by all worktrees)
 echo "-- demo WITHOUT change"
 bash $out/build_and_run.sh $wt > $out/demo_without.verify.txt 2>&1; echo "exit=$?"; tail -3 $out/demo_without.verify.txt
-git stash pop -q
+git apply $out/patch.diff
 git diff --stat | tail -1
 } > $log 2>&1
